@@ -47,6 +47,7 @@ func (c *Ctx) Guarded(fn *ssa.Function, sinkDesc string, sel SinkSel, guards ...
 				describeInstr(hit.Instr), c.P.Pos(instrPos(hit.Instr)), g.Desc, strings.Join(gd, " | "), c.P.pathStr(hit.Path)))
 		} else {
 			c.OK("G", key, instrPos(sinks[0]), len(sinks)+len(sites), fmt.Sprintf("%d sink(s) only through: %s", len(sinks), strings.Join(gd, " | ")))
+			c.recordFlipSites(key, sites)
 		}
 	}
 }
